@@ -30,19 +30,27 @@ func c13PermEval(r *core.Run, c *permCase) {
 		creator string
 		sleep   int
 		locked  bool
+		state   string
 	}
 	var gs []gor
 	nc := 2 + rr.Intn(3)
 	for ci := 0; ci < nc; ci++ {
 		for k := 1 + rr.Intn(3); k > 0; k-- {
-			gs = append(gs, gor{creators[ci], sleeps[rr.Intn(len(sleeps))], false})
+			// some members are locked to their thread (the bucket is then shown locked, which ranks it) and the
+			// creators' goroutines wait in one of two states
+			g := gor{creators[ci], sleeps[rr.Intn(len(sleeps))], false, "chan receive"}
+			if c.Trial%2 == 1 {
+				g.locked = rr.Chance(1, 3)
+				g.state = []string{"chan receive", "IO wait"}[(ci+c.Trial/2)%2]
+			}
+			gs = append(gs, g)
 		}
 	}
 	mk := func(order []int) *stack.Snapshot {
 		sigs := []*stack.Signature{{State: "running", Stack: stack.Stack{Calls: []stack.Call{gen.MkCall("main.main", "/src/app/main.go", 5, stack.GoMod, stack.Args{})}}}}
 		for _, k := range order {
 			g := gs[k]
-			sigs = append(sigs, &stack.Signature{State: "chan receive", SleepMin: g.sleep, SleepMax: g.sleep, Locked: g.locked,
+			sigs = append(sigs, &stack.Signature{State: g.state, SleepMin: g.sleep, SleepMax: g.sleep, Locked: g.locked,
 				Stack:     stack.Stack{Calls: []stack.Call{gen.MkCall("main.worker", "/src/app/worker.go", 20, stack.GoMod, stack.Args{})}},
 				CreatedBy: stack.Stack{Calls: []stack.Call{gen.MkCall(g.creator, "/src/app/main.go", 30, stack.GoMod, stack.Args{})}}})
 		}
